@@ -1565,6 +1565,23 @@ impl<'ast> LoweringContext<'ast> {
         } else {
             SuccessType::Unit
         };
+        if takes_write {
+            // The write-out parameter takes the place of the success value: with any other success type
+            // the HIR has nowhere to record the parameter, and the backends would declare the function without it.
+            let success_is_unit = match return_type.unwrap_or(&ast::TypeName::Unit) {
+                ast::TypeName::Unit => true,
+                ast::TypeName::Result(ok, _, _) => matches!(ok.as_ref(), ast::TypeName::Unit),
+                ast::TypeName::Option(inner, _) => matches!(inner.as_ref(), ast::TypeName::Unit),
+                _ => false,
+            };
+            if !success_is_unit {
+                self.errors.push(LoweringError::Other(
+                    "Methods that take a DiplomatWrite must return (), Option<()> or Result<(), E>"
+                        .into(),
+                ));
+                return Err(());
+            }
+        }
         match return_type.unwrap_or(&ast::TypeName::Unit) {
             ast::TypeName::Result(ok_ty, err_ty, _) => {
                 let ok_ty = match ok_ty.as_ref() {
